@@ -335,6 +335,8 @@ func oneHistory(g *hc.Gen, o *hc.Out, scratch, bin string, h int) {
 			}
 			lines = append(lines, "c01.reset "+strings.Join(init, " "))
 			var text strings.Builder
+			var sourced []string
+			stoppedByFailure := false
 			interruptCommit := how == "interrupt" && g.Intn(2) == 0
 			for _, st := range program {
 				s := st.sql
@@ -347,10 +349,29 @@ func oneHistory(g *hc.Gen, o *hc.Out, scratch, bin string, h int) {
 				if interruptCommit && st.line == "c01.commit" {
 					continue // the signal must arrive in the FINAL commit: no earlier COMMIT in this variant
 				}
+				// the same statement, sometimes reached through a nested statement list
+				if !strings.HasPrefix(s, "DECLARE") && !strings.HasPrefix(s, "COMMIT") && !strings.HasPrefix(s, "ROLLBACK") && st.kind != "failed" {
+					switch g.Intn(8) {
+					case 0:
+						src := filepath.Join(d2, fmt.Sprintf("src%d.sql", len(lines)))
+						_ = os.WriteFile(src, []byte(s), 0o644)
+						sourced = append(sourced, filepath.Base(src))
+						s = fmt.Sprintf("SOURCE `%s`;", src)
+					case 1:
+						s = "IF TRUE THEN " + s + " END IF;"
+					case 2:
+						s = fmt.Sprintf("VAR @w%d := 0; WHILE @w%d < 1 DO %s @w%d := @w%d + 1; END WHILE;", len(lines), len(lines), s, len(lines), len(lines))
+					case 3:
+						if !strings.HasPrefix(s, "SELECT") {
+							s = fmt.Sprintf("PREPARE st%d FROM '%s'; EXECUTE st%d;", len(lines), strings.ReplaceAll(strings.TrimSuffix(s, ";"), "'", "\\'"), len(lines))
+						}
+					}
+				}
 				text.WriteString(s + " ")
 				lines = append(lines, st.line)
 				if st.kind == "failed" {
 					how = "error" // a real process stops at its first failing statement
+					stoppedByFailure = true
 					break
 				}
 			}
@@ -369,7 +390,9 @@ func oneHistory(g *hc.Gen, o *hc.Out, scratch, bin string, h int) {
 			}
 			env := os.Environ()
 			if how == "interrupt-in-commit" {
-				env = append(env, "VERIF_SIGNAL_AT=tx.commit.encode#1:"+g.Pick("SIGINT", "SIGTERM"))
+				// the k-th table being encoded: created tables are encoded first, then updated ones, so k > 1
+				// interrupts the commit after some tables were already encoded (none may be published)
+				env = append(env, fmt.Sprintf("VERIF_SIGNAL_AT=tx.commit.encode#%d:%s", 1+g.Intn(3), g.Pick("SIGINT", "SIGTERM")))
 			}
 			if how == "interrupt" {
 				// a first run lists the points; the signal is then delivered at the first file access:
@@ -401,7 +424,7 @@ func oneHistory(g *hc.Gen, o *hc.Out, scratch, bin string, h int) {
 				env = append(env, "VERIF_SIGNAL_AT="+pts[0]+"#1:"+g.Pick("SIGINT", "SIGTERM", "SIGQUIT"))
 				lines = lines[:1]
 			}
-			cmd := exec.Command(bin, "--repository", d2, "--quiet", text.String())
+			cmd := exec.Command(bin, "--repository", d2, text.String())
 			cmd.Dir = d2
 			cmd.Env = append(env, "HOME="+d2)
 			var ob bytes.Buffer
@@ -416,6 +439,16 @@ func oneHistory(g *hc.Gen, o *hc.Out, scratch, bin string, h int) {
 			}
 			if how == "interrupt-in-commit" {
 				how = "interrupt"
+				if stoppedByFailure {
+					how = "error" // the final COMMIT was never reached
+				} else if !strings.Contains(ob.String(), "signal received") || strings.Contains(ob.String(), "Commit: file") {
+					// fewer tables were encoded than the chosen occurrence, or the cancellation was noticed by
+					// no encoder (tables without records): the COMMIT completed - it must then be complete
+					how = "normal"
+				}
+			}
+			for _, f := range sourced {
+				_ = os.Remove(filepath.Join(d2, f))
 			}
 			o.Case("c01.qend "+how, diskState(d2, tr2))
 			if interruptCommit {
